@@ -44,12 +44,21 @@ def run_config(cfg):
         ctx = cfg['context']
         lab = Lab(storage=os.path.join(d, 'store'), runner_backend=cfg['backend'], max_workers=cfg['max_workers'],
                   context=dict(ctx), notebook=False)
-        leaves = [U.TCtx(label=i) if cfg['filter'] else U.Ta(label=i) for i in range(cfg['n'])]
+        leaves = [(U.TCtx if i % 2 == 0 else U.TCtxI)(label=i) if cfg['filter'] else U.Ta(label=i) for i in range(cfg['n'])]
         tops = [U.Tab(label=100 + i, deps=(leaves[i], leaves[(i + 1) % cfg['n']]), reads=(0, 1)) for i in range(cfg['n'])]
         refs = [U.TRef(label=200 + i) for i in range(2)]
         reftop = U.TRef(label=210, deps=(refs[0], refs[1]))
         tasks = tops + leaves[:1] + [reftop]
         res = lab.run_tasks(tasks, disable_progress=True, disable_top=True)
+        if cfg.get('rerun'):
+            # the same task objects are run again (everything re-executed) under a Lab with another context: what the
+            # tasks see is the filter of *that* context
+            for f in os.listdir(recdir):
+                os.unlink(os.path.join(recdir, f))
+            ctx = dict(ctx, a=ctx['a'] + 100, k0='y', k1=[3], k2='new')
+            lab = Lab(storage=os.path.join(d, 'store'), runner_backend=cfg['backend'], max_workers=cfg['max_workers'],
+                      context=dict(ctx), notebook=False)
+            res = lab.run_tasks(tasks, bust_cache=True, disable_progress=True, disable_top=True)
         recs = []
         for f in sorted(os.listdir(recdir)):
             with open(os.path.join(recdir, f)) as fh:
@@ -69,7 +78,10 @@ def run_config(cfg):
             stored[t.label] = [md, hashlib.sha1(data).hexdigest()]
             if b'SENTINEL' in data or 'SENTINEL' in raw_md:
                 leaked.append(t.label)
-        want_ctx = {t.label: {k: repr(v) for k, v in sorted(t.filter_context(dict(ctx)).items())} for t in leaves + tops}
+        # expected: the universe's own filter for the filtering types (also the one that only inherits it), identity otherwise
+        def expected(t):
+            return U._filter_first(t, dict(ctx)) if isinstance(t, (U.TCtx, U.TCtxI)) else dict(ctx)
+        want_ctx = {t.label: {k: repr(v) for k, v in sorted(expected(t).items())} for t in leaves + tops}
         return dict(recs=recs, keys=keys, stored=stored, want_ctx=want_ctx, n_results=len(res), leaked=leaked,
                     values_ok=all(res[t] == ('N', t.label, (('N', t.deps[0].label, ()), ('N', t.deps[1].label, ()))) for t in tops))
     finally:
@@ -96,7 +108,7 @@ def run(prop, report, tier, seed, replay=None):
                     cfgs.append(dict(backend=b, max_workers=mw, filter=filt, n=2 if b == 'spawn' else rng.randint(2, 4),
                                      context={'a': rng.randint(0, 9), 'k0': 'x', 'k1': [1, 2], 'other': rng.random(),
                                               'secret': f'SENTINEL-{rng.randrange(10 ** 9)}'},
-                                     helper_thread=(len(cfgs) % 2 == 1)))
+                                     helper_thread=(len(cfgs) % 2 == 1), rerun=(len(cfgs) % 3 == 2)))
     dist = Counter()
     samples = []
     baseline = {}
